@@ -399,8 +399,13 @@ def main(argv):
             print('VIOLATION property=%s replay=%s%s' % (prop, path, tail))
         return 1
     if out.undecided:
+        shown = 0
         for u in out.undecided:
-            print('UNDECIDED property=%s reason=%s' % (prop, u))
+            if shown < 8:
+                print('UNDECIDED property=%s reason=%s' % (prop, u))
+            shown += 1
+        if shown > 8:
+            print('UNDECIDED property=%s reason=(%d more reasons in the evidence file)' % (prop, shown - 8))
         return 2
     return 0
 
